@@ -176,6 +176,27 @@ def nested_space():
     return total, nth
 
 
+def complex_pow(e):
+    """an EXP node with a negative base and a non-integer exponent: Python answers
+    with a complex number or, when that overflows, OverflowError - the float power
+    with a non-integer exponent is not modelled (Machine.py_pow says 'complex'
+    whatever the magnitude); such expressions are left out of the model ties and
+    stay in the model-free oracles"""
+    k = e[0]
+    if k == 2:
+        if e[1] == 7 and e[2][0] == 0 and e[3][0] == 0:
+            b, x = lit_num(e[2]), lit_num(e[3])
+            if b == b and x == x and b < 0 and isinstance(x, float) and x not in (float('inf'), float('-inf')) \
+               and x != int(x):
+                return True
+        return complex_pow(e[2]) or complex_pow(e[3])
+    if k == 3:
+        return complex_pow(e[2])
+    if k == 4:
+        return complex_pow(e[1])
+    return False
+
+
 def exp_nodes_ok(e):
     k = e[0]
     if k == 2:
@@ -340,9 +361,9 @@ class Fn:
 
     def __init__(self, exe, cases):
         self.cases = cases
-        self.raw = vlib.run_impl('foldfn.all_case', cases)
-        self.m1 = vlib.run_model(exe, [[1, c] for c in cases])
-        self.m2 = vlib.run_model(exe, [[2, c] for c in cases])
+        self.raw = vlib.run_impl('foldfn.all_case', cases, timeout=14400)
+        self.m1 = vlib.run_model(exe, [[1, c] for c in cases], timeout=14400)
+        self.m2 = vlib.run_model(exe, [[2, c] for c in cases], timeout=14400)
         self.m3 = None
         self.exe = exe
 
@@ -367,7 +388,9 @@ def fn_suites(ctx, exe, cases, label):
             return fn
     # ---- which folder does the repository carry?  (unchanged / with fixes/C02-fold.diff)
     mism_u = mism_f = 0
-    for raw, a in zip(fn.raw, fn.m1):
+    for c, raw, a in zip(cases, fn.raw, fn.m1):
+        if complex_pow(c):
+            continue
         ty, fr = raw['fold'][0], norm_fold(raw['fold'][1])
         if a[1] != [9] and (ty != a[0] or fr != a[1]):
             mism_u += 1
@@ -377,10 +400,13 @@ def fn_suites(ctx, exe, cases, label):
     ctx.extra.setdefault('folder_variant', {})[label] = 'fixed' if fixed else 'unchanged'
     if fixed:
         fn.need_fixed()
-    n_unmod = n_ill = 0
+    n_unmod = n_ill = n_cpow = 0
     for i, (c, raw, a, b) in enumerate(zip(cases, fn.raw, fn.m1, fn.m2)):
         ty, fr, bd = raw['fold'][0], norm_fold(raw['fold'][1]), norm_fold(raw['fold'][2])
         op, lt, rt = root_sig(c, raw)
+        if complex_pow(c):
+            n_cpow += 1
+            continue
         # ---- tie A: fold
         if fixed:
             mty, mfr = a[2], a[3]
@@ -420,9 +446,10 @@ def fn_suites(ctx, exe, cases, label):
                            {'suite': 'fold_rt', 'expr': describe(c), 'case': c,
                             'impl': raw['bound_rt'], 'model': b[3]}, False)
     ctx.count('fold_fn:' + label, len(cases), set(json.dumps(c) for c in cases))
-    ctx.count('fold_rt:' + label, len(cases) - n_ill)
+    ctx.count('fold_rt:' + label, len(cases) - n_ill - n_cpow)
     ctx.bump('fold_fn unmodelled (float ** non-integer, // with huge quotient, non-ASCII)', n_unmod)
     ctx.bump('fold_rt ill-typed (rejected by Pass2, no code generated)', n_ill)
+    ctx.bump('fold_fn/fold_rt left out: negative base ^ non-integer exponent (complex / overflow)', n_cpow)
     return fn
 
 
@@ -544,7 +571,7 @@ def oracle_suite(ctx, exe, fn, label):
             items.append((c, raw, 'v'))
         if kb is not None:
             items.append((c, raw, 'b'))
-    res = attribute(items, lambda es: vlib.run_impl('foldfn.all_case', es))
+    res = attribute(items, lambda es: vlib.run_impl('foldfn.all_case', es, timeout=14400))
     for (c, raw, which), (bc, braw, bk) in zip(items, res):
         op, lt, rt = root_sig(bc, braw)
         if which == 'v':
@@ -639,7 +666,7 @@ def levels_suite(ctx, exe, fn, permille, batch=20):
     progs = []
     for k in range(0, len(safe), batch):
         progs.append(safe[k:k + batch])
-    res = vlib.run_impl('foldfn.run_levels', [{'src': '\n'.join(t for _, _, t in p)} for p in progs])
+    res = vlib.run_impl('foldfn.run_levels', [{'src': '\n'.join(t for _, _, t in p)} for p in progs], timeout=14400)
     nst = 0
     for p, r in zip(progs, res):
         if isinstance(r, dict):
@@ -652,7 +679,7 @@ def levels_suite(ctx, exe, fn, permille, batch=20):
             ctx.bump('levels:batched statements agreeing at 4 levels', len(p))
         else:
             single.extend(p)
-    res = vlib.run_impl('foldfn.run_levels', [{'src': t} for _, _, t in single])
+    res = vlib.run_impl('foldfn.run_levels', [{'src': t} for _, _, t in single], timeout=14400)
     pend = []
     for (i, form, text), r in zip(single, res):
         if isinstance(r, dict):
@@ -672,7 +699,7 @@ def levels_suite(ctx, exe, fn, permille, batch=20):
         raw = fn.raw[i]
         which = 'v' if (oracle(raw) is not None or form != 'dim') else 'b'
         items.append((fn.cases[i], raw, which))
-    attr = attribute(items, lambda es: vlib.run_impl('foldfn.all_case', es))
+    attr = attribute(items, lambda es: vlib.run_impl('foldfn.all_case', es, timeout=14400))
     for (i, form, text, r, (kind, lv)), (bc, braw, bk) in zip(pend, attr):
         c, raw = fn.cases[i], fn.raw[i]
         op, lt, rt = root_sig(bc, braw)
